@@ -343,7 +343,8 @@ def show_call(name, form, logical):
 
 
 def compat_logical(case):
-    return {'requested_version': case['req'], 'current_version': case['cur'],
+    return {'requested_version': as_caller_str(case['req'], case.get('strsub')),
+            'current_version': as_caller_str(case['cur'], case.get('strsub')),
             'same_major': FLAG_VALUES[bool(case['same_major'])][case.get('flag', 0)]}
 
 
@@ -357,11 +358,54 @@ def show_compat(case):
     return show_call('is_compatible', case.get('form'), compat_logical(case))
 
 
-def call1(target, name, value, kw=False):
+class CallerStr(str):
+    """what a caller may hand in instead of a plain str: a str subclass (with state of its own)"""
+    origin = 'caller'
+
+    def __repr__(self):
+        return 'CallerStr(%s)' % str.__repr__(self)
+
+
+def as_caller_str(v, on):
+    return CallerStr(v) if on and type(v) is str else v
+
+
+def call1(target, name, value, kw=False, strsub=False):
     """a one-parameter public callable, positionally or by its pinned parameter name"""
+    value = as_caller_str(value, strsub)
     if kw:
         return target(**{SIGNATURES[name][0][0]: value})
     return target(value)
+
+
+_SUBCLASSES = {}
+
+
+def predicate_class(kind):
+    """VersionPredicate itself, or a subclass of it as an application may define: overriding nothing, or one
+    public method by delegation to super()"""
+    base = vu().VersionPredicate
+    if not kind:
+        return base
+    key = (id(base), kind)
+    if key not in _SUBCLASSES:
+        if kind == 'plain':
+            class Sub(base):
+                pass
+        elif kind == 'override-sat':
+            class Sub(base):
+                def satisfied_by(self, *a, **k):
+                    return super().satisfied_by(*a, **k)
+        else:
+            class Sub(base):
+                def __init__(self, *a, **k):
+                    self.tag = 'application state'
+                    super().__init__(*a, **k)
+        Sub.__name__ = Sub.__qualname__ = 'Sub_' + kind.replace('-', '_')
+        Sub.__module__ = __name__
+        globals()[Sub.__name__] = Sub       # importable by name, as an application's class is (pickle needs that)
+        _SUBCLASSES[key] = Sub
+    return _SUBCLASSES[key]
 
 
 def random_compat_form(rng, same_major):
@@ -444,12 +488,12 @@ def impl_conv(case):
     try:
         kw = bool(case.get('kw'))
         if fn == 'tuple':
-            r = call1(m.convert_version_to_tuple, 'convert_version_to_tuple', case['s'], kw)
+            r = call1(m.convert_version_to_tuple, 'convert_version_to_tuple', case['s'], kw, case.get('strsub'))
             if type(r) is tuple and all(type(x) is int for x in r):
                 return 'ok:' + (','.join(big_str(x) for x in r) or '-')
             return 'other:' + repr(r)[:60]
         if fn == 'int_s':
-            return canon_int_result(call1(m.convert_version_to_int, 'convert_version_to_int', case['s'], kw))
+            return canon_int_result(call1(m.convert_version_to_int, 'convert_version_to_int', case['s'], kw, case.get('strsub')))
         if fn == 'int_t':
             return canon_int_result(call1(m.convert_version_to_int, 'convert_version_to_int', tuple(case['t']), kw))
         if fn == 'int_o':
@@ -539,7 +583,8 @@ def impl_pred(case, rank_of):
     """rank_of(Version) -> rank in this case's dictionary (for the white-box `pred` list)"""
     m = vu()
     try:
-        vp = call1(m.VersionPredicate, 'VersionPredicate', case['pred'], case.get('kw_init'))
+        vp = call1(predicate_class(case.get('subclass')), 'VersionPredicate', case['pred'], case.get('kw_init'),
+                   case.get('strsub'))
     except Exception as e:
         return 'init:' + type(e).__name__
     pairs = parsed_pairs(vp)
@@ -548,7 +593,7 @@ def impl_pred(case, rank_of):
     else:
         wb = '\tconds=' + (','.join('%s:%s' % (hexs(c), rank_of(v)) for c, v in pairs) or '-')
     try:
-        r = call1(vp.satisfied_by, 'satisfied_by', case['ver'], case.get('kw'))
+        r = call1(vp.satisfied_by, 'satisfied_by', case['ver'], case.get('kw'), case.get('strsub'))
         return ('bool:%d' % r if type(r) is bool else 'other:' + repr(r)[:60]) + wb
     except Exception as e:
         return 'sat:' + type(e).__name__ + wb
@@ -726,10 +771,16 @@ def conversion_string(rng):
     return mutate(s, rng), 'mutated'
 
 
+def scaled(ctx, n):
+    """case count of one generator family: about 40% in a child of the ambient sweep (eleven children run side by
+    side with the same families), the full count in the main run"""
+    return max(50, int(n * 0.4)) if getattr(ctx, 'ambient', None) else n
+
+
 def gen_conversion_strings(ctx):
     """yield (string, tag)"""
     rng = ctx.rng
-    n = 2500 if ctx.quick else 40000
+    n = scaled(ctx, 2500 if ctx.quick else 40000)
     for _ in range(n):
         yield conversion_string(rng)
     for m in MARKERS:           # every marker, written out
@@ -762,7 +813,7 @@ def gen_tuples(ctx):
     for n in range(1, maxlen + 1):
         for t in itertools.product(POOL, repeat=n):
             yield list(t), 'exh<=%d' % maxlen
-    for _ in range(1500 if ctx.quick else 20000):
+    for _ in range(scaled(ctx, 1500 if ctx.quick else 20000)):
         yield comp_tuple(rng, in_domain=rng.random() < 0.6), 'random'
     for t in ([], [0], [0, 0], [1, -1], [-1, 5], [-1], [1000], [1, 1000], [999, 999, 999, 999, 999], [10 ** 30, 1]):
         yield t, 'fixed'
@@ -867,6 +918,7 @@ def gen_compat_case(rng):
     case = {'fn': 'compat', 'req': render_v(a, rng), 'cur': render_v(b, rng), 'same_major': rng.random() < 0.5,
             'req_struct': a, 'cur_struct': b}
     case['form'], case['flag'] = random_compat_form(rng, case['same_major'])
+    case['strsub'] = rng.random() < 0.1
     x = rng.random()
     if x < 0.06:
         case['req'] = rng.choice(BAD_VERSIONS)
@@ -889,7 +941,9 @@ def gen_pred_case(rng):
         vs = ''.join(ch for ch in vs if not ch.isspace())
         pieces.append([ws(rng), op, ws(rng), vs, ws(rng)])
     case = {'fn': 'pred', 'comps': [[op, v] for op, v in comps], 'ver_struct': cand, 'ver': render_v(cand, rng),
-            'malformed': None, 'kw_init': rng.random() < 0.2, 'kw': rng.random() < 0.2}
+            'malformed': None, 'kw_init': rng.random() < 0.2, 'kw': rng.random() < 0.2,
+            'strsub': rng.random() < 0.1,
+            'subclass': rng.choice([None, None, None, None, 'plain', 'override-sat', 'override-init'])}
     x = rng.random()
     if x < 0.3:
         i = rng.randrange(k)
@@ -951,7 +1005,8 @@ def run_calls(case):
     objs = []
     if case.get('pred') is not None:
         try:
-            objs.append(call1(m.VersionPredicate, 'VersionPredicate', case['pred'], case.get('kw_init')))
+            objs.append(call1(predicate_class(case.get('subclass')), 'VersionPredicate', case['pred'],
+                              case.get('kw_init'), case.get('strsub')))
         except Exception as e:
             return [_exc_out('init:', e)]
     for c in case['calls']:
@@ -966,7 +1021,7 @@ def run_calls(case):
                 if c.get('obj', 0) >= len(objs):
                     outs.append({'out': 'no-object'})
                     continue
-                r = call1(objs[c.get('obj', 0)].satisfied_by, 'satisfied_by', c['ver'], c.get('kw'))
+                r = call1(objs[c.get('obj', 0)].satisfied_by, 'satisfied_by', c['ver'], c.get('kw'), c.get('strsub'))
                 outs.append({'out': 'bool:%d' % r if type(r) is bool else 'other:' + repr(r)[:60]})
             elif op == 'compat':
                 r = call_compat(c)
@@ -980,21 +1035,36 @@ def run_calls(case):
     return outs
 
 
-_FRESH = ("import sys, json; sys.path.insert(0, %r); import common; from props import C17; "
-          "print('\\n@@' + json.dumps(C17.run_calls(json.load(sys.stdin))))")
+FRESH_BUDGET_S = 50.0          # wall clock for ALL fresh-interpreter work of one run (main run or one child)
+_fresh_used = [0.0]
 
 
-def run_calls_fresh(case, timeout=20):
-    """the same in a fresh interpreter (same tree: VERIF_REPO is inherited); None if that did not work"""
+def fresh_budget_left():
+    return FRESH_BUDGET_S - _fresh_used[0]
+
+
+def run_calls_fresh(case, timeout=15):
+    """the same in a fresh interpreter - the same tree (VERIF_REPO is inherited) and the same ambient
+    configuration (ambient.fresh_interpreter_argv / setup_snippet; no-ops in the main run).
+    None if that did not work or the run's budget for fresh interpreters is used up."""
     import json
     import subprocess
     import tempfile
+    import time
+    import ambient
+    left = fresh_budget_left()
+    if left <= 1.0:
+        return None
+    harness = os.path.join(common.VERIF, 'harness')
+    script = ('import sys, json\nsys.path.insert(0, %r)\n' % harness +
+              ambient.setup_snippet('import common\nfrom props import C17') +
+              "print('\\n@@' + json.dumps(C17.run_calls(json.load(sys.stdin))))\n")
     pc = tempfile.mkdtemp(prefix='verif-c17-pyc')
+    t0 = time.time()
     try:
-        p = subprocess.run([sys.executable, '-X', 'pycache_prefix=' + pc, '-c',
-                            _FRESH % os.path.join(common.VERIF, 'harness')],
+        p = subprocess.run(ambient.fresh_interpreter_argv() + ['-X', 'pycache_prefix=' + pc, '-c', script],
                            input=json.dumps(case).encode(), stdout=subprocess.PIPE, stderr=subprocess.PIPE,
-                           timeout=timeout, env=dict(os.environ, PYTHONDONTWRITEBYTECODE='1'))
+                           timeout=min(timeout, left), env=dict(os.environ, PYTHONDONTWRITEBYTECODE='1'))
         for line in p.stdout.decode('utf-8', 'replace').splitlines():
             if line.startswith('@@'):
                 return json.loads(line[2:])
@@ -1002,6 +1072,7 @@ def run_calls_fresh(case, timeout=20):
     except Exception:
         return None
     finally:
+        _fresh_used[0] += time.time() - t0
         import shutil
         shutil.rmtree(pc, ignore_errors=True)
 
@@ -1010,7 +1081,7 @@ def _call_key(c):
     """equal LOGICAL arguments (the call form, the spelling of the flag and which copy of the predicate object
     is asked do not count)"""
     return repr(sorted((k, repr(v)) for k, v in c.items()
-                       if not k.endswith('struct') and k not in ('form', 'flag', 'kw', 'obj')))
+                       if not k.endswith('struct') and k not in ('form', 'flag', 'kw', 'obj', 'strsub')))
 
 
 def _show_call(c):
@@ -1141,6 +1212,7 @@ def gen_sat_sequence(rng, clones=True):
         new['kw'] = rng.random() < 0.15
         calls.append(new)
     return {'prop': 'seq', 'fn': 'seq', 'pred': c['pred'], 'comps': c['comps'], 'kw_init': rng.random() < 0.15,
+            'strsub': c.get('strsub'), 'subclass': c.get('subclass'),
             'malformed': None if c['malformed'] == 'badcand' else c['malformed'], 'calls': calls}
 
 
@@ -1187,21 +1259,43 @@ def seq_line(case, strings):
 
 
 def confirm_and_shrink_seq(ctx, case, budget=25.0):
-    """re-run a failing sequence in a fresh interpreter and shrink it there (bounded wall clock);
-    returns (case, what) or None when the fresh interpreter does not reproduce it"""
+    """Re-run a failing sequence in a fresh interpreter (same ambient configuration) and shrink it there,
+    all within the run's wall-clock budget for fresh interpreters.  A failure that the fresh interpreter does
+    not reproduce - or that cannot be re-run because the budget is spent - is still a concrete failing input
+    of THIS process and configuration: it is then shrunk and reported as seen in-process.
+    Returns (case, what, how it was confirmed)."""
     import time
-    t_end = time.time() + budget
-    why = judge_calls(case, run_calls_fresh(case))
-    if not why:
-        return None
+    t_end = time.time() + min(budget, max(0.0, fresh_budget_left()))
+    fresh = run_calls_fresh(case)
+    why = judge_calls(case, fresh) if fresh is not None else None
+    if why:
+        def still(sub):
+            if time.time() > t_end or fresh_budget_left() <= 1.0:
+                return False
+            return judge_calls(dict(case, calls=sub), run_calls_fresh(dict(case, calls=sub), timeout=10)) is not None
+        calls = common.shrink_list(case['calls'], still, max_steps=60)
+        small = dict(case, calls=calls)
+        again = run_calls_fresh(small)
+        return small, (judge_calls(small, again) if again is not None else None) or why, 'fresh interpreter'
+    # in-process only
+    t_end = time.time() + 10.0
 
-    def still(sub):
+    def still_here(sub):
         if time.time() > t_end:
             return False
-        return judge_calls(dict(case, calls=sub), run_calls_fresh(dict(case, calls=sub), timeout=10)) is not None
-    calls = common.shrink_list(case['calls'], still, max_steps=60)
+        c = dict(case, calls=sub)
+        return judge_calls(c, run_calls(c)) is not None
+    calls = common.shrink_list(case['calls'], still_here, max_steps=200)
     small = dict(case, calls=calls)
-    return small, judge_calls(small, run_calls_fresh(small)) or why
+    why_here = judge_calls(small, run_calls(small))
+    if not why_here:
+        small, why_here = case, judge_calls(case, run_calls(case))
+    if not why_here:
+        return None
+    how = ('in-process only: a fresh interpreter in the same configuration does not reproduce it (it depends on '
+           'what this process did before)' if fresh is not None else
+           'in-process only: no fresh interpreter was available within the budget')
+    return small, why_here, how
 
 
 # --------------------------------------------------------------------------
@@ -1239,6 +1333,8 @@ def correspondence(ctx):
     for c, _ in cases:
         if rng.random() < 0.2:
             c['kw'] = True
+        if 's' in c and rng.random() < 0.1:
+            c['strsub'] = True
     for fn, arg in (('tuple', {'s': '1.2.3rc1'}), ('int_s', {'s': '1.2.3'}), ('int_t', {'t': [1, 2, 3]}),
                     ('str', {'n': 1002003}), ('int_o', {'kind': 'list'})):
         for kwf in (False, True):
@@ -1267,7 +1363,7 @@ def correspondence(ctx):
     # the model says how it reads the piece; the implementation is then observed from outside:
     # the constructor's outcome and satisfied_by below / at / above the bound the model extracted
     pieces = []
-    for _ in range(1500 if ctx.quick else 20000):
+    for _ in range(scaled(ctx, 1500 if ctx.quick else 20000)):
         c = gen_pred_case(rng)
         pieces += c['pred'].split(',')
     pieces += ['', ' ', '<', '<=', '<= ', '<==', '<=1', '< =1', '<=1 2', '=1', '==1', '== =1', '!=1\n', '\n>1\n\n', '>1\x1c',
@@ -1283,8 +1379,8 @@ def correspondence(ctx):
             piece_cases.append({'fn': 'pred', 'pred': p, 'ver': LOW_VERSION, 'piece': True})
 
     # ---- is_compatible and VersionPredicate ----------------------------------
-    vcases = [gen_compat_case(rng) for _ in range(3000 if ctx.quick else 40000)]
-    pcases = [gen_pred_case(rng) for _ in range(3000 if ctx.quick else 40000)]
+    vcases = [gen_compat_case(rng) for _ in range(scaled(ctx, 3000 if ctx.quick else 40000))]
+    pcases = [gen_pred_case(rng) for _ in range(scaled(ctx, 3000 if ctx.quick else 40000))]
     vcases += pcases
     # the same predicates seen from more candidates: at every bound, below all, above all
     for c in pcases[::3]:
@@ -1386,7 +1482,7 @@ def correspondence(ctx):
                 out.append(Disagreement(dict(case, repeat='delayed'), impl, rep))
 
     # ---- one predicate object, many questions: call by call against the (stateless) model ----------
-    seqs = [gen_sat_sequence(rng) for _ in range(1500 if ctx.quick else 20000)]
+    seqs = [gen_sat_sequence(rng) for _ in range(scaled(ctx, 1500 if ctx.quick else 20000))]
     sinfo, slines = [], []
     rx = clause_regex()
     for case in seqs:
@@ -1506,7 +1602,7 @@ def oracle(case):
     if k == 'seq':
         return judge_calls(case, run_calls(case))
     kw = bool(case.get('kw'))
-    kwn = lambda name: name + '=' if kw else ''
+    kwn = lambda name: (name + '=' if kw else '') + ('<str subclass instance> ' if case.get('strsub') else '')
     if k == 'spec':
         s = case['s']
         verdict = spec_verdict(s)
@@ -1514,17 +1610,17 @@ def oracle(case):
             return None
         if verdict[0] == 'raise':
             for f in (m.convert_version_to_tuple, m.convert_version_to_int):
-                why = _raises_valueerror(call1, f, f.__name__, s, kw)
+                why = _raises_valueerror(call1, f, f.__name__, s, kw, case.get('strsub'))
                 if why:
                     return '%s(%s%r) %s: a component is neither numeric nor a number followed by ' \
                            'a|alpha|b|beta|rc and digits' % (f.__name__, kwn(SIGNATURES[f.__name__][0][0]), s, why[:120])
             return None
         want = tuple(verdict[1])
-        got = _try(call1, m.convert_version_to_tuple, 'convert_version_to_tuple', s, kw)
+        got = _try(call1, m.convert_version_to_tuple, 'convert_version_to_tuple', s, kw, case.get('strsub'))
         if got != want:
             return 'convert_version_to_tuple(%s%r) = %s, the components are %s' % (
                 kwn('version_str'), s, repr(got)[:80], repr(want)[:80])
-        gi = _try(call1, m.convert_version_to_int, 'convert_version_to_int', s, kw)
+        gi = _try(call1, m.convert_version_to_int, 'convert_version_to_int', s, kw, case.get('strsub'))
         wi = _try(call1, m.convert_version_to_int, 'convert_version_to_int', want, kw)
         if type(gi) is not int or gi != wi:
             return 'convert_version_to_int(%s%r) = %s but of its component tuple %s' % (
@@ -1572,7 +1668,7 @@ def oracle(case):
     if k == 'nonnumeric':
         s = case['s']
         for f in (m.convert_version_to_tuple, m.convert_version_to_int):
-            why = _raises_valueerror(call1, f, f.__name__, s, kw)
+            why = _raises_valueerror(call1, f, f.__name__, s, kw, case.get('strsub'))
             if why:
                 return '%s(%s%r) %s' % (f.__name__, kwn(SIGNATURES[f.__name__][0][0]), s, why)
         return None
@@ -1599,8 +1695,9 @@ def oracle(case):
     if k == 'pred':
         if case.get('malformed'):
             try:
-                vp = call1(m.VersionPredicate, 'VersionPredicate', case['pred'], case.get('kw_init'))
-                r = call1(vp.satisfied_by, 'satisfied_by', case['ver'], kw)
+                vp = call1(predicate_class(case.get('subclass')), 'VersionPredicate', case['pred'], case.get('kw_init'),
+                           case.get('strsub'))
+                r = call1(vp.satisfied_by, 'satisfied_by', case['ver'], kw, case.get('strsub'))
             except ValueError:
                 return None
             except Exception as e:
@@ -1613,15 +1710,17 @@ def oracle(case):
         bound = (lambda v: vkey(v, None)) if cs is not None else (lambda v: pv().Version(render_v(v)))
         want = all(OPF[op](kc, bound(v)) for op, v in case['comps'])
         try:
-            got = call1(call1(m.VersionPredicate, 'VersionPredicate', case['pred'], case.get('kw_init')).satisfied_by,
-                        'satisfied_by', case['ver'], kw)
+            got = call1(call1(predicate_class(case.get('subclass')), 'VersionPredicate', case['pred'],
+                              case.get('kw_init'), case.get('strsub')).satisfied_by,
+                        'satisfied_by', case['ver'], kw, case.get('strsub'))
         except Exception as e:
             got = e
         if got is not want:
             each = ['%s%s:%s' % (op, render_v(v), OPF[op](kc, bound(v))) for op, v in case['comps']]
-            return 'VersionPredicate(%s%r).satisfied_by(%s%r) = %r, the comparisons give %s' % (
+            return '%s(%s%r).satisfied_by(%s%r) = %r, the comparisons give %s%s' % (
+                predicate_class(case.get('subclass')).__name__,
                 'predicate_str=' if case.get('kw_init') else '', case['pred'], kwn('version_str'), case['ver'], got,
-                ' '.join(each))
+                ' '.join(each), ' (arguments passed as instances of a str subclass)' if case.get('strsub') else '')
         return None
     raise KeyError(k)
 
@@ -1634,6 +1733,8 @@ def gen_search_case(rng):
     c = _gen_search_case(rng)
     if c['prop'] in ('roundtrip', 'order', 'suffix', 'nonnumeric', 'spec') and rng.random() < 0.2:
         c['kw'] = True
+    if c['prop'] in ('nonnumeric', 'spec') and rng.random() < 0.1:
+        c['strsub'] = True
     return c
 
 
@@ -1786,7 +1887,7 @@ def shrink(case):
         return dict(case, s=''.join(chars))
     if k in ('compat', 'pred'):
         for c in fixed_cases():
-            c = dict(c, **{f: case[f] for f in ('form', 'flag', 'kw', 'kw_init') if f in case})
+            c = dict(c, **{f: case[f] for f in ('form', 'flag', 'kw', 'kw_init', 'strsub', 'subclass') if f in case})
             if c['prop'] == k and bool(c.get('malformed')) == bool(case.get('malformed')) and \
                     (k != 'compat' or c['same_major'] == case['same_major']) and fails(c):
                 return c
@@ -1843,16 +1944,14 @@ def search(ctx, seeds, full=False):
             if kind in kinds and len(fails) >= 1:
                 continue
             if case['prop'] == 'seq':
-                # history dependence: only what a fresh interpreter reproduces is reported
+                # confirmed and shrunk in a fresh interpreter of the same configuration where possible
                 got = confirm_and_shrink_seq(ctx, case)
-                ctx.count('search/seq-confirmed' if got else 'search/seq-not-reproduced-fresh')
-                if not got:
-                    if ctx.hist.get('search/seq-not-reproduced-fresh', 0) <= 3:
-                        ctx.notes.append('search: a sequence failed in-process (%s) but not in a fresh interpreter; '
-                                         'not reported' % why[:200])
+                if not got:         # not even reproducible here a second time
+                    ctx.count('search/seq-flaky')
                     continue
+                ctx.count('search/seq-confirmed/' + got[2].split(':')[0].replace(' ', '-'))
                 kinds.add(kind)
-                fails.append(Failure(got[0], {'kind': kind, 'what': got[1], 'confirmed': 'fresh interpreter'}))
+                fails.append(Failure(got[0], {'kind': kind, 'what': got[1], 'confirmed': got[2]}))
                 if len(fails) >= 5:
                     break
                 continue
